@@ -161,6 +161,15 @@ def run(ctx: Ctx, tier: str) -> Result:
         ok_i = any("metric_processors" in x or "MetricProcessor" in x for x in it_i) and isinstance(inner.iter, (ast.Attribute, ast.Call))
         ok_o = any("'metrics'" in x for x in it_o)
         exits = [n for n in ast.walk(outer) if isinstance(n, (ast.Break, ast.Return))]
+        # neither collection is cut short (a slice / islice / next on the iterated expression or on what it is bound to)
+        def cut(it, depth=0):
+            if any(isinstance(n, ast.Subscript) and isinstance(n.slice, ast.Slice) or (isinstance(n, ast.Call) and norm(n.func).endswith(("islice", "next"))) for n in ast.walk(it)):
+                return True
+            if isinstance(it, ast.Name) and depth < 2:
+                return any(b[1] is not None and cut(b[1], depth + 1) for k, b in t.local_bindings(pa, it.id) if k == "assign")
+            return False
+        if cut(inner.iter) or cut(outer.iter):
+            exits = exits + [inner.iter if cut(inner.iter) else outer.iter]
         conds = [x for x in paths.conditions(p, c, pa)]
         if ok_i and ok_o and not exits and not conds:
             res.ok("C17.FAN", {"outer": it_o[0], "inner (re-obtained per metric)": it_i[0][:80]})
